@@ -8,6 +8,7 @@
 #include <cstdarg>
 #include <fstream>
 #include <unistd.h>
+#include <malloc.h>
 
 #ifndef DSIM_BACKEND
 #define DSIM_BACKEND "unknown"
@@ -90,8 +91,17 @@ static std::string result_line(uint64_t seed, const Plan &plan, const RunResult 
     if (with_sample || r.v.set) o.str("sample", r.sample);
     if (!r.stats.empty()) { JObj s; for (auto &p : r.stats) s.dbl(p.first, p.second); o.raw("stats", s.done()); }
     if (!r.known.empty()) { std::string a = "["; for (size_t i = 0; i < r.known.size(); i++) a += (i ? ",\"" : "\"") + jesc(r.known[i]) + "\""; o.raw("known", a + "]"); }
-    if (with_plan || r.v.set) o.str("plan", plan.str());
+    if (with_plan || r.v.set) o.str("plan", (r.v.set && !r.explicit_plan.empty()) ? r.explicit_plan : plan.str());
     return o.done();
+}
+
+// Dirty memory (buggify: an allocator may legally return recycled memory): glibc fills every fresh allocation with the
+// complement of this byte and every freed block with the byte itself, so that a read of uninitialised heap memory gives
+// the same value in the original run and in a fresh-process replay, and a different one under another pattern.
+static void apply_perturb(const Plan &p) {
+#if !defined(__SANITIZE_ADDRESS__) && !defined(__SANITIZE_THREAD__)
+    mallopt(M_PERTURB, (int) p.cfg.geti("perturb", 0));
+#endif
 }
 
 int main(int argc, char **argv) {
@@ -127,6 +137,7 @@ int main(int argc, char **argv) {
         if (!s) { fprintf(stderr, "unknown scenario %s\n", p.scenario.c_str()); return 2; }
         printf("BEGIN %llu\n", (unsigned long long) p.seed); fflush(stdout);
         RunResult r;
+        apply_perturb(p);
         s->exec(p, r);
         printf("%s\n", result_line(p.seed, p, r, false, true).c_str());
         fflush(stdout);
@@ -142,7 +153,9 @@ int main(int argc, char **argv) {
         printf("BEGIN %llu\n", (unsigned long long) sd); fflush(stdout);
         opts.setu("run_index", i);
         Plan p = s->gen(sd, opts);
+        if (!p.cfg.has("perturb")) p.cfg.seti("perturb", opts.has("perturb") ? opts.geti("perturb") : 1 + (int64_t) (sd % 255));
         RunResult r;
+        apply_perturb(p);
         s->exec(p, r);
         if (r.v.set) viol++;
         printf("%s\n", result_line(sd, p, r, false, (int) (i - first) < samples).c_str());
